@@ -19,6 +19,9 @@ RULES = {
              "status = current_status(stored, env.block) and threshold = stored.threshold.to_response(stored.total_weight)",
     "R03.5": "current_status table: result is Passed iff stored Open and is_passed; Rejected iff stored Open, not passed and "
              "(is_rejected or expired); otherwise the stored status (finite case split over the decisions of the function)",
+    "R03.8": "a counted ballot stays (shared with C06 R06.1): the voting write is insert-if-absent on (proposal_id, info.sender) - a "
+             "ballot that can be replaced leaves its first weight in the tally, so the stored tally is no longer what the recorded "
+             "ballots imply",
     "R03.7": "the rule that is applied is the rule that was configured: instantiate stores threshold and max_voting_period exactly as "
              "the message gave them (validated, not narrowed or rewritten); proposals copy the stored threshold (R05.5)",
     "R03.6": "threshold-rule clauses shared with C04: no pass without Yes weight (R04.1); the arms of is_passed / is_rejected agree "
@@ -137,6 +140,15 @@ def run(ctx):
     from ..idioms import check_overflow_profile
     check_overflow_profile(ctx)
     check_queries(ctx, it)
+    # R03.8 = C06 R06.1: the tally can only equal the recorded ballots if a ballot, once counted, is never replaced
+    from . import C06
+    sub6 = type(ctx)(ctx.pid, ctx.facts, ctx.engine, ctx.tier, ctx.tree_hash)
+    C06.run(sub6)
+    for k in sub6.order:
+        o = sub6.obs[k]
+        if o.rule == "R06.1" and not o.key.startswith(("anchor", "floor")):
+            ctx.ob("R03.8", o.key, True if o.status == "discharged" else (None if o.status == "undecided" else False),
+                   detail="; ".join(o.details), sites=o.sites, sample=o.sample)
     from ..idioms import config_as_configured
     config_as_configured(ctx, "R03.7", "cw3_fixed_multisig", it["fixed_config"], ("threshold", "max_voting_period"), "fixed")
     config_as_configured(ctx, "R03.7", "cw3_flex_multisig", it["flex_config"], ("threshold", "max_voting_period"), "flex")
